@@ -27,9 +27,15 @@ class InvariantBroken(Exception):
 _INV = {"n": 0}
 
 
+def _debt_of(self):
+    # public accessor through the base class (bypasses the contract wrappers; private field names are not relied upon)
+    from operon_ai.state.metabolism import ATP_Store
+    return ATP_Store.get_debt(self)
+
+
 def _nonneg(self):
     _INV["n"] += 1
-    return self.atp >= 0 and self.gtp >= 0 and self.nadh >= 0 and self._debt >= 0
+    return self.atp >= 0 and self.gtp >= 0 and self.nadh >= 0 and _debt_of(self) >= 0
 
 
 _Monitored = None
@@ -44,7 +50,7 @@ def monitored_class():
         class MonitoredStore(ATP_Store):
             pass
         _Monitored = icontract.invariant(_nonneg, error=lambda self: InvariantBroken(
-            "negative balance/debt: atp=%r gtp=%r nadh=%r debt=%r" % (self.atp, self.gtp, self.nadh, self._debt)))(MonitoredStore)
+            "negative balance/debt: atp=%r gtp=%r nadh=%r debt=%r" % (self.atp, self.gtp, self.nadh, _debt_of(self))))(MonitoredStore)
     return _Monitored
 
 
